@@ -38,6 +38,18 @@
     content after being detached from the tree, exactly as *ctree.Leaf does.
     Delete notifications are fresh detached leaves (index in [st_dels]).
 
+      LCancel s     the client goes away (cancel / EOF): Next or Send returns the
+                    context's error, the RPC ends.  Like [LTimeout] it sets the
+                    ended flag: announcements skip the subscriber from then on.
+      LUnreg s      one step of the deferred remove() of an ended RPC: one more
+                    of its paths leaves the match trie ([regq] shrinks by one;
+                    the program counter of an ended subscriber is reused to
+                    count the paths still registered; enabled once its walk
+                    goroutine is through).  Registration is per subscriber in
+                    this model, so other subscribers' paths cannot be affected
+                    (StallProofs.others_registered_unaffected): a removeQuery
+                    that prunes a branch others still use breaks the
+                    correspondence.
       LUnlock w     GnmiUpdate / Reset / updateMeta returns: the target's write
                     mutex (Target.wmu, commit b865e5c) is released.  [LWrite]
                     takes it (or goes on holding it: Reset and the metadata
@@ -155,7 +167,8 @@ Inductive label :=
 | LReg (s : nat) | LRegDone (s : nat)
 | LWalkBegin (s : nat) | LVisit (s : nat) (p : path) | LWalkEnd (s : nat) | LSync (s : nat)
 | LDeq (s : nat) | LRead (s : nat) | LSent (s : nat) | LTimeout (s : nat)
-| LUnlock (w : nat).
+| LUnlock (w : nat)
+| LCancel (s : nat) | LUnreg (s : nat).
 
 (** ** Helpers *)
 
@@ -374,6 +387,24 @@ Definition step_gen (mutex : bool) (h : hyps) (st : state) (lb : label) : option
           else option_map fst (write h st w o)
       | _ => None
       end
+  | LCancel s =>
+      with_sub st s (fun sb =>
+        if is_registered sb && negb (s_end sb)
+        then Some (mkSub (s_qs sb) (s_uo sb) (s_pc sb) (s_queue sb) (s_infl sb) (s_out sb)
+                         (s_sent sb) (s_snap sb) true)
+        else None)
+  | LUnreg s =>
+      with_sub st s (fun sb =>
+        if s_end sb then
+          match s_pc sb with
+          | SDone => match List.length (s_qs sb) with
+                     | O => None
+                     | S k => Some (set_pc sb (SReg k))
+                     end
+          | SReg (S k) => Some (set_pc sb (SReg k))
+          | _ => None
+          end
+        else None)
   | LUnlock w =>
       match nth_error (st_feeds st) w, lock_of st w with
       | Some [], Some _ => Some (set_lock st w None)
